@@ -250,8 +250,10 @@ def _builders(db, chk, new, old, OPEN_N, CLOSE_N, START_O, END_O):
     # events.sort(key=cmp_to_key(compare_events))  |  events = sorted(<all events>, key=cmp_to_key(compare_events))
     srt2 = [c for c in H.calls(g) if ((isinstance(c.func, ast.Attribute) and c.func.attr == "sort") or H.name_id(c.func) == "sorted") and "compare_events" in ast.unparse(c)]
     ok_srt = len(srt2) == 1 and lp2 is not None and H.before(srt2[0], lp2) and "cmp_to_key(compare_events)" in ast.unparse(srt2[0]) and not any(k.arg == "reverse" for k in srt2[0].keywords)
-    chk.ob("C03.R3-builder", f"{OLD}: the analysed comparator sorts the endpoints before the scan", ok_srt if srt2 else None,
-           old.loc(g), found=[ast.unparse(s)[:120] for s in srt2], accepted="events.sort(key=cmp_to_key(compare_events))")
+    sorts_any = [c for c in H.calls(g) if (isinstance(c.func, ast.Attribute) and c.func.attr == "sort") or H.name_id(c.func) == "sorted"]
+    chk.ob("C03.R3-builder", f"{OLD}: the analysed comparator sorts the endpoints before the scan", ok_srt if srt2 else (False if sorts_any else None),
+           old.loc(g), found=[ast.unparse(s)[:120] for s in (srt2 or sorts_any)], accepted="events.sort(key=cmp_to_key(compare_events))",
+           why="another sort key is another order of the endpoints: the tie rules decided for compare_events no longer describe the stack that is built")
     ev_fields = None
     for st in old.tree.body:
         if isinstance(st, ast.Assign) and H.name_id(st.targets[0]) == "Event" and isinstance(st.value, ast.Call):
